@@ -2,6 +2,7 @@
 # usage: tools/evalbenign.sh /tmp/ben-A/out/r1   -> applies a behaviour-preserving refactoring to a scratch
 # worktree and runs every check against it: all must exit 0.
 set -u
+ROOT=${VERIF_DIR:-/verif}
 M=$1
 export GOFLAGS=-mod=mod GOPROXY=off GOSUMDB=off GOTOOLCHAIN=local
 unset CI UPDATE_SNAPS
@@ -12,7 +13,7 @@ trap 'git -C /repo worktree remove --force $WT >/dev/null 2>&1' EXIT
 ( cd $WT && go build ./... && go test -vet=off -count=1 ./... >/dev/null 2>&1 ); s=$?
 res="$M suite=$s"
 for c in C01 C02 C03 C04 C05 C06 C07 C08 C09 C10 C12 C17 C19 C20; do
-  out=$(cd /verif && VERIF_REPO=$WT VERIF_WORLDS=${BEN_WORLDS:-4000} ./bin/simdrive check $c quick 2>&1); rc=$?
+  out=$(cd $ROOT && VERIF_REPO=$WT VERIF_WORLDS=${BEN_WORLDS:-4000} ./bin/simdrive check $c quick 2>&1); rc=$?
   res="$res $c=$rc"
   if [ $rc -ne 0 ]; then echo "$out" | grep -A3 "^VIOLATION\|^INFRA" | head -8 | cut -c1-300; fi
 done
